@@ -67,6 +67,10 @@ func vfClientEnv(K, P int) (*vfEnv, []peer.ID, *bool) {
 	return e, ids, &acc
 }
 
+func vfValidFlag(flag byte, accepting2 bool) bool {
+	return flag == 1 || (flag == 2 && accepting2)
+}
+
 // VfSearchValue (C04, C06 corrective puts): GetValue/SearchValue end to end.
 func VfSearchValue() {
 	P := vfParam("P")
@@ -109,7 +113,10 @@ func VfSearchValue() {
 					a.hasRec = vfBool("peer.hasRecord")
 					if a.hasRec {
 						a.keyOK = vfBool("peer.recordKeyMatches")
-						a.flag = vfIte(vfBool("peer.recordValid"), byte(1), byte(0))
+						// invalid (0), valid (1), or the other byte encoding (2): valid too - so that
+						// two byte-different records can rank equally - unless the validator has
+						// stopped accepting it, in which case it is what a stale local copy looks like
+						a.flag = byte(vfChoose("peer.recordFlag", 3))
 						a.rank = vfU8("peer.rank")
 					}
 				}
@@ -161,7 +168,7 @@ func VfSearchValue() {
 	}
 	for _, p := range ids {
 		a := ans[p]
-		if a != nil && a.decided && !a.fails && a.hasRec && a.keyOK && a.flag == 1 && int(a.rank) > bestRank {
+		if a != nil && a.decided && !a.fails && a.hasRec && a.keyOK && vfValidFlag(a.flag, *accepting2) && int(a.rank) > bestRank {
 			bestRank = int(a.rank)
 		}
 	}
@@ -178,7 +185,9 @@ func VfSearchValue() {
 				if a == nil || a.fails || (a.hasRec && !a.keyOK) {
 					continue // failed peers (a mis-keyed record is a failed request) are not among the lookup's closest peers
 				}
-				returnedBest := a.hasRec && a.keyOK && a.flag == 1 && int(a.rank) == bestRank
+				// "returned the best value" = returned the very bytes the search ended with
+				last := streamed[len(streamed)-1]
+				returnedBest := a.hasRec && a.keyOK && vfValidFlag(a.flag, *accepting2) && a.rank == last[1] && a.flag == last[0]
 				n := 0
 				for _, s := range puts {
 					if s.to == p {
